@@ -25,13 +25,25 @@ Record obs := mkObs {
 
 Inductive init := ICreate (co : copts) | ILoad (bytes : list brun).
 
+(* read-only questions asked of the handle after a step *)
+Inductive query :=
+| QMany (sels : list selector)      (* GetDescriptors *)
+| QOne (sels : list selector)       (* GetDescriptor *)
+| QData (id : Z).                   (* GetDescriptor(WithID id) then GetData *)
+
+Inductive qobs :=
+| QIds (l : list (Z * Z))           (* (ID, relative ID) of each descriptor returned *)
+| QErr (e : err)
+| QBytes (bs : list brun).
+
 Record hcase := mkCase {
   c_id : Z;
   c_backend : backend;
   c_init : init;
   c_init_obs : obs;
   c_has_handle : bool;            (* false: creation/loading failed, no handle *)
-  c_steps : list (op * obs) }.
+  c_init_queries : list (query * qobs);
+  c_steps : list (op * obs * list (query * qobs)) }.
 
 Definition sha := Sha2.sha256.
 
@@ -42,12 +54,15 @@ Fixpoint pairs_eqb (a b : list (Z * Z)) : bool :=
   | _, _ => false
   end.
 
+(* a read that never converts a number larger than the store to nat *)
+Definition safe_read (off n : Z) (st : store) : list byte :=
+  match zread off n st with Some bs => bs | None => [] end.
+
 (* used descriptors' regions agree between two stores *)
 Definition live_equal (rds : list rdesc) (a b : store) : bool :=
   forallb (fun d =>
-             if d_used d && (0 <=? d_off d) && (0 <=? d_size d) then
-               bytes_eqb (nread (Z.to_nat (d_off d)) (Z.to_nat (d_size d)) a)
-                         (nread (Z.to_nat (d_off d)) (Z.to_nat (d_size d)) b)
+             if d_used d then
+               bytes_eqb (safe_read (d_off d) (d_size d) a) (safe_read (d_off d) (d_size d) b)
              else true) rds.
 
 (* mismatch codes:
@@ -64,14 +79,14 @@ Definition check_state (m : mem) (io : fstate) (r : result) (o : obs) (handle : 
       if bytes_eqb (enc_header h) exp then [] else [2]) ++
      (let exp := match o_rds o with
                  | Some l => expand l
-                 | None => nread (Z.to_nat (h_descoff h)) (Z.to_nat (h_descsize h)) ost
+                 | None => safe_read (h_descoff h) (585 * h_total h) ost
                  end in
       if bytes_eqb (enc_table (m_rds m)) exp then [] else [3]) ++
      (if pairs_eqb (m_minids m) (o_minids o) then [] else [4]) ++
      (if live_equal (m_rds m) mst ost then [] else [7]) ++
      (if bytes_eqb (nread 0 128 mst) (nread 0 128 ost) &&
-         bytes_eqb (nread (Z.to_nat (h_descoff h)) (Z.to_nat (h_descsize h)) mst)
-                   (nread (Z.to_nat (h_descoff h)) (Z.to_nat (h_descsize h)) ost)
+         bytes_eqb (safe_read (h_descoff h) (585 * h_total h) mst)
+                   (safe_read (h_descoff h) (585 * h_total h) ost)
       then [] else [8])
    else []) ++
   (if bytes_eqb mst ost then [] else [5]) ++
@@ -81,12 +96,50 @@ Definition check_state (m : mem) (io : fstate) (r : result) (o : obs) (handle : 
    end) ++
   (if Nat.eqb (length mst) (length ost) then [] else [9]).
 
-Fixpoint check_steps (cid : Z) (i : Z) (s : state) (steps : list (op * obs)) : list (Z * Z * Z) :=
+Definition ids_of (l : list (rdesc * Z)) : list (Z * Z) := map (fun p => (d_id (fst p), snd p)) l.
+
+Definition run_query (s : state) (q : query) : qobs :=
+  match q with
+  | QMany sels =>
+      match get_descriptors (s_mem s) sels with
+      | inl l => QIds (ids_of l)
+      | inr e => QErr e
+      end
+  | QOne sels =>
+      match get_descriptor (s_mem s) sels with
+      | inl p => QIds (ids_of [p])
+      | inr e => QErr e
+      end
+  | QData id =>
+      match get_descriptor (s_mem s) [SID id] with
+      | inl (d, _) =>
+          match get_data d (f_bytes (s_io s)) with
+          | inl bs => QBytes [Lit bs]
+          | inr e => QErr e
+          end
+      | inr e => QErr e
+      end
+  end.
+
+Definition qobs_eqb (a b : qobs) : bool :=
+  match a, b with
+  | QIds x, QIds y => pairs_eqb x y
+  | QErr x, QErr y => err_eqb x y
+  | QBytes x, QBytes y => bytes_eqb (expand x) (expand y)
+  | _, _ => false
+  end.
+
+(* code 11: a query answered differently *)
+Definition check_queries (s : state) (qs : list (query * qobs)) : list Z :=
+  flat_map (fun qo => if qobs_eqb (run_query s (fst qo)) (snd qo) then [] else [11]) qs.
+
+Fixpoint check_steps (cid : Z) (i : Z) (s : state) (steps : list (op * obs * list (query * qobs)))
+  : list (Z * Z * Z) :=
   match steps with
   | [] => []
-  | (x, o) :: r =>
+  | (x, o, qs) :: r =>
       let '(s', res) := step sha s x in
-      map (fun c => (cid, i, c)) (check_state (s_mem s') (s_io s') res o true)
+      map (fun c => (cid, i, c)) (check_state (s_mem s') (s_io s') res o true ++ check_queries s' qs)
       ++ check_steps cid (i + 1) s' r
   end.
 
@@ -100,7 +153,7 @@ Definition check_case (c : hcase) : list (Z * Z * Z) :=
       | Some s =>
           map (fun x => (c_id c, 0, x))
               (check_state (s_mem s) (s_io s) r (c_init_obs c) true
-               ++ (if c_has_handle c then [] else [10]))
+               ++ (if c_has_handle c then [] else [10]) ++ check_queries s (c_init_queries c))
           ++ check_steps (c_id c) 1 s (c_steps c)
       | None =>
           map (fun x => (c_id c, 0, x))
@@ -112,7 +165,7 @@ Definition check_case (c : hcase) : list (Z * Z * Z) :=
       | inl s =>
           map (fun x => (c_id c, 0, x))
               (check_state (s_mem s) (s_io s) Ok (c_init_obs c) true
-               ++ (if c_has_handle c then [] else [10]))
+               ++ (if c_has_handle c then [] else [10]) ++ check_queries s (c_init_queries c))
           ++ check_steps (c_id c) 1 s (c_steps c)
       | inr e =>
           map (fun x => (c_id c, 0, x))
